@@ -85,13 +85,16 @@ func isRangeFact(p string) bool {
 
 // smtTextLight: additionally drops hypotheses with nested existentials (expensive for the solvers, rarely needed);
 // dropping hypotheses is always sound
-func (ix *sliceIndex) smtTextLight(o *Oblig) string {
+func (ix *sliceIndex) smtTextLight(o *Oblig, level int) string {
 	var pre []string
 	for _, p := range o.Pre {
 		if isRangeFact(p) && !strings.HasPrefix(o.Kind, "safety/overflow") {
 			continue
 		}
-		if strings.Contains(p, "(exists ") {
+		if level >= 2 && strings.Contains(p, "(exists ") {
+			continue
+		}
+		if level == 1 && (strings.Count(p, "(exists ") >= 2 || reExists2.MatchString(p)) {
 			continue
 		}
 		pre = append(pre, p)
@@ -295,11 +298,20 @@ func (sv *Solver) solveVariants(pruned, full string, canary bool) SolveResult {
 }
 
 func (sv *Solver) solveVariants3(light, pruned, full string, canary bool) SolveResult {
-	if !canary && light != "" && light != pruned {
-		r := sv.solveWith(light, false, 4)
-		if r.Status == "unsat" {
-			r.Solver += "(light)"
-			return r
+	return sv.solveVariants4(light, "", pruned, full, canary)
+}
+
+func (sv *Solver) solveVariants4(light2, light1, pruned, full string, canary bool) SolveResult {
+	if !canary {
+		for i, l := range []string{light2, light1} {
+			if l == "" || l == pruned || (i == 1 && l == light2) {
+				continue
+			}
+			r := sv.solveWith(l, false, 4)
+			if r.Status == "unsat" {
+				r.Solver += "(light)"
+				return r
+			}
 		}
 	}
 	if canary || pruned == full {
